@@ -669,3 +669,120 @@ def io_trial(norb=3, nelec_sp=(2, 1)):
                       witness=dict(mismatch=bad[:4]) if bad else None, witness_class="trial-hand-over" if bad else "",
                       detail=(f"{len(stmts)} extracted statements, option trial={opt!r}, norb={norb}, (n_up, n_dn)={tuple(nelec_o)}: " + ("; ".join(bad[:3]) if bad else "orbitals / amplitudes / rdm1 / trial object as specified"))))
     return out
+
+
+# ------------------------------------------------------------------------------------------------ trial coefficients written by prep_afqmc
+def trial_coeffs(kind="uhf", nbasis=3):
+    """C16.trial.coeffs.<kind>: the statements of prep_afqmc that build trial_coeffs (extracted by AST position) on tagged data, with np.linalg.qr under its contract
+    (fresh Q, upper-triangular R with known diagonal signs; applied only after its argument is identified as basis^T S mo_coeff[s]):
+      uhf: trial_coeffs[s] = Q_s diag(sign(diag R_s)) built from mo_coeff[s] (spin by spin);  rohf: both blocks from the one mo_coeff, same sign fix;
+      rhf: both blocks = Q of mo_coeff (no sign fix).   Column scaling by +-1 keeps every leading-column span, so with the qr contract the written trial spans the
+      mean-field occupied orbitals in the chosen basis; mo_coeff.npz receives exactly this array."""
+    t0 = time.time()
+    P = _fn(PI, "prep_afqmc")
+    node = next((n for n in P.body if isinstance(n, ast.If) and "scf.uhf.UHF, scf.rohf.ROHF" in ast.unparse(n.test)), None)
+    name = f"C16.trial.coeffs.{kind}"
+    if node is None:
+        return [ob(name, UNDECIDED, kind="bounded", detail="the trial-coefficient statement of prep_afqmc was not found", functions=FNS[:1])]
+
+    class UHF:
+        pass
+
+    class ROHF:
+        pass
+
+    class RHF:
+        pass
+
+    class _NS:
+        pass
+    scf = _NS()
+    scf.uhf, scf.rohf, scf.rhf = _NS(), _NS(), _NS()
+    scf.uhf.UHF, scf.rohf.ROHF, scf.rhf.RHF = UHF, ROHF, RHF
+    n = nbasis
+    Ma = 10.0 + np.arange(n * n, dtype=float).reshape(n, n)
+    Mb = 50.0 + np.arange(n * n, dtype=float).reshape(n, n) * 1.5
+    mf = {"uhf": UHF, "rohf": ROHF, "rhf": RHF}[kind]()
+    mf.mo_coeff = [Ma, Mb] if kind == "uhf" else Ma
+    Q = {0: 100.0 + np.arange(n * n, dtype=float).reshape(n, n), 1: 300.0 + np.arange(n * n, dtype=float).reshape(n, n)}
+    sg = {0: np.array([1.0, -1.0, 1.0, -1.0][:n]), 1: np.array([-1.0, -1.0, 1.0, 1.0][:n])}
+    calls, saved = [], {}
+
+    class _LA:
+        @staticmethod
+        def qr(x):
+            k = 0 if np.array_equal(x, Ma) else (1 if np.array_equal(x, Mb) else None)
+            if k is None:
+                raise Unsupported("qr applied to something that is not basis^T S mo_coeff[s]")
+            calls.append(k)
+            R = np.triu(np.ones((n, n))) * sg[k][:, None]        # upper triangular, diagonal signs sg[k]
+            return Q[k], R
+
+    class NP:
+        linalg = _LA()
+
+        def __getattr__(self, k):
+            return getattr(np, k)
+
+        @staticmethod
+        def savez(fname, **kw):
+            saved[fname] = kw
+    ns = dict(np=NP(), scf=scf, mf=mf, nbasis=n, norb_frozen=0, basis_coeff=np.eye(n), overlap=np.eye(n), trial_coeffs=np.empty((2, n, n)), isinstance=isinstance)
+    mod = ast.Module([copy.deepcopy(node)], [])
+    ast.fix_missing_locations(mod)
+    try:
+        exec(compile(mod, REPO + "/ad_afqmc/pyscf_interface.py", "exec"), ns)
+    except Unsupported as e:
+        return [ob(name, REFUTED, kind="bounded", backend="concrete-exec(tagged)", detail=str(e), functions=FNS[:1], witness_class="qr-argument", replayed=None)]
+    tc = np.asarray(ns["trial_coeffs"])
+    if kind == "uhf":
+        want = [Q[0] * sg[0][None, :], Q[1] * sg[1][None, :]]
+        want_calls = [0, 1]
+    elif kind == "rohf":
+        want = [Q[0] * sg[0][None, :]] * 2
+        want_calls = [0]
+    else:
+        want = [Q[0]] * 2
+        want_calls = [0]
+    bad = []
+    for s_ in range(2):
+        if not np.array_equal(tc[s_], want[s_]):
+            bad.append(f"trial_coeffs[{s_}] is not Q{' diag(sign(diag R))' if kind != 'rhf' else ''} of the spin-{'ud'[s_]}{'pn'[s_]} coefficients")
+    if calls != want_calls:
+        bad.append(f"qr calls {calls} (expected {want_calls})")
+    sv = saved.get("mo_coeff.npz", {}).get("mo_coeff")
+    if sv is None or not np.array_equal(np.asarray(sv), tc):
+        bad.append("mo_coeff.npz does not receive trial_coeffs")
+    o = ob(name, REFUTED if bad else DISCHARGED, kind="bounded", backend="concrete-exec(tagged)", functions=FNS[:1], wall=time.time() - t0,
+           detail=("; ".join(bad) if bad else f"trial_coeffs[s] = Q_s{' diag(sign(diag R_s))' if kind != 'rhf' else ''} from mo_coeff[s]; written to mo_coeff.npz (qr calls {calls})"),
+           witness=dict(mismatch=bad) if bad else None, witness_class="trial-coefficients" if bad else "")
+    if bad:
+        # native replay with numpy's qr: the written blocks must keep the leading-column spans of basis^T S mo_coeff[s]
+        try:
+            rng = np.random.default_rng(3)
+            A = [rng.normal(size=(n, n)), rng.normal(size=(n, n))]
+            mf2 = {"uhf": UHF, "rohf": ROHF, "rhf": RHF}[kind]()
+            mf2.mo_coeff = A if kind == "uhf" else A[0]
+
+            class NP2:
+                def __getattr__(self, k):
+                    return getattr(np, k)
+
+                @staticmethod
+                def savez(fname, **kw):
+                    pass
+            ns2 = dict(np=NP2(), scf=scf, mf=mf2, nbasis=n, norb_frozen=0, basis_coeff=np.eye(n), overlap=np.eye(n), trial_coeffs=np.empty((2, n, n)), isinstance=isinstance)
+            exec(compile(mod, REPO + "/ad_afqmc/pyscf_interface.py", "exec"), ns2)
+            t2 = np.asarray(ns2["trial_coeffs"])
+            dev = 0.0
+            for s_ in range(2):
+                src = A[s_] if kind == "uhf" else A[0]
+                for k in range(1, n):
+                    Pq = t2[s_][:, :k] @ np.linalg.pinv(t2[s_][:, :k])
+                    Pa = src[:, :k] @ np.linalg.pinv(src[:, :k])
+                    dev = max(dev, float(np.abs(Pq - Pa).max()))
+            o["replayed"] = bool(dev > 1e-8)
+            o["witness"]["native"] = dict(max_deviation_of_leading_column_projectors=dev)
+        except Exception as e:   # noqa
+            o["witness"]["native_error"] = repr(e)[:300]
+    return [o]
